@@ -146,6 +146,20 @@ class numba:
 
         return loader._range(*a)
 
+    @staticmethod
+    def get_num_threads():
+        # some positive number of threads: nothing else is known to the contracts
+        if core.active():
+            return core.fresh_int("numba_threads", 1, register=True)
+        return 4
+
+    @staticmethod
+    def set_num_threads(n):
+        return None
+
+    class config:
+        NUMBA_NUM_THREADS = 16
+
 
 class math:
     pi = _math.pi
